@@ -10,7 +10,7 @@ import (
 
 // VerifRewriteRule builds a $dnsrewrite rule with symbolic exception flag,
 // $important flag and rewrite payload.  kinds: 0 empty value, 1 new CNAME,
-// 2 response code only, 3 A record, 4 TXT record, 5 MX record, 6 AAAA, 7 SRV, 8 HTTPS (SVCB structure), 9 PTR.
+// 2 response code only, 3 A record, 4 TXT record, 5 MX record, 6 AAAA, 7 SRV, 8 HTTPS (SVCB structure), 9 PTR, 10 NS/SOA (type without a value).
 func VerifRewriteRule(p string, nkinds int) *NetworkRule {
 	r := &NetworkRule{RuleText: p, pattern: "||x^"}
 	r.Whitelist = verifBool(p + ".whitelist")
@@ -91,6 +91,15 @@ func VerifRewriteRule(p string, nkinds int) *NetworkRule {
 		rw.Value = nm + "."
 		if !verifSymbolic() {
 			text = "NOERROR;PTR;" + nm
+		}
+	case 10:
+		// a record type without a value parser: the type is kept, the value is dropped
+		if verifBool(p + ".soa") {
+			rw.RRType = 6
+			text = "NOERROR;SOA;a"
+		} else {
+			rw.RRType = 2
+			text = "NOERROR;NS;a"
 		}
 	}
 	r.DNSRewrite = rw
